@@ -36,6 +36,9 @@ type Net struct {
 	// Direct delivers every written datagram to its destination at once
 	// (free-running mode without an event loop).
 	Direct bool
+	// OnWrite, when set, takes over every written datagram (free-running mode
+	// with fates): it is called on the writer's goroutine with a private copy.
+	OnWrite func(c *PConn, to string, data []byte)
 }
 
 // NewNet creates an empty network.
@@ -136,6 +139,10 @@ func (c *PConn) WriteTo(b []byte, addr net.Addr) (int, error) {
 	c.mu.Unlock()
 	if werr != nil {
 		return 0, werr
+	}
+	if c.n.OnWrite != nil {
+		c.n.OnWrite(c, addr.String(), append([]byte(nil), b...))
+		return len(b), nil
 	}
 	if c.n.Direct {
 		c.n.Deliver(addr.String(), c.addr, append([]byte(nil), b...))
